@@ -113,7 +113,8 @@ class ExecutorWithDependencies(ExecutorBase):
                 "future": f,
                 "resource_dict": resource_dict,
             }
-            task_hash = generate_task_hash(
+            # each submission is a node of the graph of its own, also when an identical call was submitted before
+            task_hash = str(len(self._task_hash_dict)).encode() + generate_task_hash(
                 task_dict=task_dict,
                 future_hash_inverse_dict={
                     v: k for k, v in self._future_hash_dict.items()
